@@ -271,6 +271,82 @@ func leanStrList(name string, xs []string) string {
 	return b.String()
 }
 
+// mutexFacts lists, for every function of the package that mentions <obj>, the lock/unlock/access
+// events on <obj>.<mu> / <obj>.<field> in source order (a deferred Unlock is placed at the end).
+func mutexFacts(p *pkg, obj, mu, field string) string {
+	type fn struct {
+		name   string
+		events []string
+	}
+	var fns []fn
+	var fnames []string
+	for n := range p.files {
+		fnames = append(fnames, n)
+	}
+	sort.Strings(fnames)
+	for _, n := range fnames {
+		for _, d := range p.files[n].Decls {
+			fd, ok := d.(*ast.FuncDecl)
+			if !ok || fd.Body == nil {
+				continue
+			}
+			var ev, deferred []string
+			var inDefer ast.Node
+			ast.Inspect(fd.Body, func(node ast.Node) bool {
+				switch x := node.(type) {
+				case *ast.DeferStmt:
+					inDefer = x.Call
+				case *ast.CallExpr:
+					if sel, ok := x.Fun.(*ast.SelectorExpr); ok && exprStr(sel.X) == obj+"."+mu {
+						e := ""
+						switch sel.Sel.Name {
+						case "Lock":
+							e = "lock"
+						case "Unlock":
+							e = "unlock"
+						}
+						if e != "" {
+							if inDefer == node {
+								deferred = append(deferred, e)
+							} else {
+								ev = append(ev, e)
+							}
+							return false
+						}
+					}
+				case *ast.SelectorExpr:
+					if exprStr(x) == obj+"."+field {
+						ev = append(ev, "access")
+						return false
+					}
+				}
+				return true
+			})
+			ev = append(ev, deferred...)
+			if len(ev) > 0 {
+				fns = append(fns, fn{fd.Name.Name, ev})
+			}
+		}
+	}
+	var b strings.Builder
+	fmt.Fprintf(&b, "def %sMutexEvents : List (String × List String) := [", obj)
+	for i, f := range fns {
+		if i > 0 {
+			b.WriteString(",")
+		}
+		fmt.Fprintf(&b, "\n  (%q, [", f.name)
+		for j, e := range f.events {
+			if j > 0 {
+				b.WriteString(", ")
+			}
+			fmt.Fprintf(&b, "%q", e)
+		}
+		b.WriteString("])")
+	}
+	b.WriteString("]\n")
+	return b.String()
+}
+
 func main() {
 	if len(os.Args) != 3 {
 		fatal("usage: extract <repo> <lean Gen dir>")
@@ -315,11 +391,7 @@ func main() {
 	for _, fn := range []string{"DialURLContext", "RegisterContextDialer", "UnregisterDialer"} {
 		f.WriteString(leanStrList("transport"+fn+"Calls", callsIn(tr.funcDecl(fn))))
 	}
-	names := []string{}
-	for n := range fb.files {
-		names = append(names, n)
-	}
-	sort.Strings(names)
+	f.WriteString(mutexFacts(tr, "dialers", "mu", "m"))
 	f.WriteString("\nend Wl2k.Gen\n")
 	if err := os.WriteFile(filepath.Join(out, "Facts.lean"), []byte(f.String()), 0o644); err != nil {
 		fatal("%v", err)
